@@ -191,7 +191,10 @@ func (a *WALBatchApplier) ApplyEntries(entries []*replication_proto.WALEntry, ap
 	var lastAppliedSeq uint64
 	for i, protoEntry := range entries {
 		// Verify entries are in sequence
-		if i > 0 && protoEntry.SequenceNumber != entries[i-1].SequenceNumber+1 {
+		// The entries of one transaction share a sequence number (the WAL stamps
+		// a batch once): equal numbers are not a gap
+		if i > 0 && protoEntry.SequenceNumber != entries[i-1].SequenceNumber+1 &&
+			protoEntry.SequenceNumber != entries[i-1].SequenceNumber {
 			// Gap within the batch
 			hasGap = true
 			return a.maxAppliedSeq, hasGap, fmt.Errorf("sequence gap within batch: %d -> %d",
